@@ -1,14 +1,14 @@
 CONSTANTS
   MaxObj = 3
-  MaxSteps = 7
-  CreateClasses = {"P","C"}
-  QueryClasses = {"P","C"}
+  MaxSteps = 6
+  CreateClasses = {"P"}
+  QueryClasses = {"P","T"}
   AllowClear = FALSE
-  AllowRelate = TRUE
+  AllowRelate = FALSE
   AllowQueryX = TRUE
   AllowSweep = FALSE
   AllowDeclare = FALSE
-  AllowInfer = FALSE
+  AllowInfer = TRUE
   CopyModes = {}
   UnregisteredModes = {}
   Hist = TRUE
